@@ -1081,7 +1081,7 @@ def fails_on_error(prog, sl, fn, call):
     return not _reaches_end_avoiding(fn, call.target, set(), sites, infeasible)
 
 
-def success_implies(prog, call, sl=None, _seen=None, depth=0):
+def success_implies(prog, call, sl=None, _seen=None, depth=0, stop=()):
     """(ok, why, failing call): whenever a public entry point that runs `call` succeeds, the Result produced by `call` was
     Ok — at every level the value is `?`-ed / returned / matched with failing non-Ok arms (discard.ok_on_success, or
     fails_on_error when a Slicer is given); a closure's result is the result of the and_then / map it is handed to, or an element of a short-circuiting collect"""
@@ -1094,7 +1094,7 @@ def success_implies(prog, call, sl=None, _seen=None, depth=0):
     if f.path in seen:
         return True, None, None
     seen.add(f.path)
-    if f.vis == 'pub' and f.kind != 'Closure':
+    if (f.vis == 'pub' or f.path in stop) and f.kind != 'Closure':
         return True, None, None
     users = []
     if f.kind == 'Closure':
@@ -1108,18 +1108,187 @@ def success_implies(prog, call, sl=None, _seen=None, depth=0):
         return False, '%s is never called' % f.path, None
     for c, direct in users:
         if direct:
-            r = success_implies(prog, c, sl, seen, depth + 1)
+            r = success_implies(prog, c, sl, seen, depth + 1, stop)
         else:
             d = c.decl or ''
             if d.startswith(('std::result::Result::', 'std::option::Option::')) and d.endswith(CLOSURE_RUNS_ON_OK):
-                r = success_implies(prog, c, sl, seen, depth + 1)
+                r = success_implies(prog, c, sl, seen, depth + 1, stop)
+            elif d in (IT + 'try_for_each', IT + 'try_fold'):
+                # the consumer stops at the closure's first failure and returns it
+                r = success_implies(prog, c, sl, seen, depth + 1, stop)
             elif d in LAZY:
                 sink = _pipeline_sink(prog, c.fn, c)
                 if sink is None or (not (sink.dty or '').startswith(('std::result::Result<', 'std::option::Option<')) and sink.decl not in (IT + 'try_for_each', IT + 'try_fold')):
                     return False, 'the results of %s are elements of a pipeline at %s that does not stop at the first failure' % (f.path.split('::')[-1], c.where()), None
-                r = success_implies(prog, sink, sl, seen, depth + 1)
+                r = success_implies(prog, sink, sl, seen, depth + 1, stop)
             else:
                 return False, '%s is handed to %s at %s' % (f.path.split('::')[-1], c.name, c.where()), None
         if not r[0]:
             return r
     return True, None, None
+
+
+# ====================================================================================================================
+# Deepening round — totality of (nested) iterations around an effect, consumption of the build order, and the functions that
+# feed the graph.  The interprocedural selection algebra (loops, closures handed to iterator adapters and filter stages are
+# the same thing) is the one C15 states its "every node" obligation on (C15_helpers.selection / every_element / expand);
+# it is reused here read-only.
+# ====================================================================================================================
+class NLoop:
+    def __init__(self, L, body, latches, exhaust):
+        self.header, self.next_call, self.collection = L.header, L.next_call, L.collection
+        self.body, self.latches, self.exhaust = body, latches, exhaust
+
+
+def natural_loops(E, f):
+    """E.loops(f) with natural-loop bodies (back edges = edges into the header from blocks it dominates): the library's body
+    of an inner loop also holds the blocks of the enclosing loop, which hides the inner loop's exhaustion edge"""
+    preds = {}
+    for b in range(len(f.blocks)):
+        for t in f.succs(b):
+            preds.setdefault(t, []).append(b)
+    out = []
+    for L in E.loops(f):
+        h = L.header
+        latches = [p for p in preds.get(h, ()) if f.dominates(h, p)]
+        body, work = {h}, list(latches)
+        while work:
+            b = work.pop()
+            if b not in body:
+                body.add(b)
+                work.extend(preds.get(b, ()))
+        ex = None
+        tb = L.next_call.target
+        if tb is not None and f.blocks[tb]['t']['t'] == 'switch':
+            t = f.blocks[tb]['t']
+            some_t = [b for v, b in t['targets'] if v == 1]
+            outs = [b for v, b in t['targets'] if v != 1] + [t['else']]
+            outs = [b for b in outs if b not in body and f.blocks[b]['t']['t'] != 'unreachable']
+            if some_t and some_t[0] in body and len(set(outs)) == 1:
+                ex = (tb, outs[0])
+        out.append(NLoop(L, body, latches, ex))
+    return out
+
+
+def total_iterations(E, e, tolerate=None):
+    """effect e runs for *every* combination of elements of the (possibly nested) iterations around it, on every run that
+    does not fail: (verdict 'ok'|'violated'|'unproven'|'none', reason, [Iteration] outermost first).  Generalises
+    C15_helpers.every_element to nested loops: per loop no filter stage / truncating adapter / per-element decision, from
+    the top of each body every path to the next iteration (of this or an enclosing loop) or to a success exit goes through
+    the next inner loop resp. the call, and no loop can be left other than by exhaustion without failing.
+    tolerate(cond, substituted subject) -> True for per-element decisions that are accepted (e.g. "the step before succeeded")."""
+    from . import C15_helpers as H15
+    from .lib.value import vstr
+    sl = E.slicer
+    sel = H15.selection(E, e)
+    its = sel.iterations
+    if not its:
+        return 'none', 'not inside an iteration', its
+    for it in its:
+        if it.recv is None:
+            return 'unproven', 'a loop whose collection is not known', its
+        if any(fl == 'trunc' for _, _, fl in iters.alts(sl, it.recv)) or any(st[3] for st in iters.stages(peel(it.recv), with_stop=True)):
+            return 'violated', 'a truncating adapter (take / skip / take_while / map_while / ..) drops elements by position: %s' % vstr(it.recv)[:100], its
+        if it.preds:
+            return 'violated', 'a filter stage drops elements: %s' % '; '.join(vstr(p[0])[:80] for p in it.preds), its
+        if it.opaque:
+            return 'unproven', 'an adapter whose selection cannot be stated: %s' % vstr(it.recv)[:100], its
+    ls = H15.levels(e)
+    guards = [(j, cd, vs) for j, cd, vs in sel.guards
+              if not (tolerate is not None and cd.subject is not None and tolerate(cd, E.subst(cd.subject, ls[j][1])))]
+    if guards:
+        return 'violated', 'runs only under a per-element condition: %s' % '; '.join(vstr(vs[0][0])[:80] for _, _, vs in guards), its
+    inside = False          # an iteration was opened at an earlier level
+    prev_adapter = False    # the previous level's call is the iterator adapter / consumer whose closure this level's function is
+    for j, (c, m) in enumerate(ls):
+        f = c.fn
+        lps = sorted((L for L in natural_loops(E, f) if c.bb in L.body and c.bb != L.header), key=lambda L: -len(L.body))
+        sites = {s.bb for s in E.sites(f)} or set(f.return_blocks())
+        if inside:
+            # below the outermost iteration: the callee is entered every time and cannot succeed without reaching the call
+            if not prev_adapter and not H15._direct(E, ls[j - 1][0], f):
+                return 'unproven', 'reached through an indirect call', its
+            if not always_through(f, 0, lps[0].header if lps else c.bb, sites):
+                return 'violated', '%s can succeed without reaching it' % f.path, its
+        for n, L in enumerate(lps):
+            target = lps[n + 1].header if n + 1 < len(lps) else c.bb
+            tb = L.next_call.target
+            entries = [s for s in f.succs(tb) if s in L.body] if tb is not None else []
+            ex = getattr(L, 'exhaust', None)
+            if not entries or ex is None:
+                return 'unproven', 'loop shape not recognised', its
+            heads = {x.header for x in lps[:n + 1]}
+            if not all(always_through(f, s, target, heads | sites, [ex]) for s in entries):
+                return 'violated', 'an iteration can go on to the next element (or leave the loop successfully) without reaching it', its
+            # leaving the loop other than by exhaustion: an enclosing loop's next iteration or a success exit reached from
+            # the header without the exhaustion edge
+            outer = {x.header for x in lps[:n]}
+            if _reaches_end_avoiding(f, L.header, set(), outer | sites, {ex}):
+                return 'violated', 'the loop can be left before its collection is exhausted (break / early success) and the function still succeeds', its
+        prev_adapter = sum(1 for it in its if it.level == j) > len(lps)
+        inside = inside or bool(lps) or prev_adapter
+    return 'ok', '', its
+
+
+def node_element(elem, marker):
+    """the sub-value of a loop element that is the element of the iterated collection itself (`(i, node)` of an enumerate,
+    a tuple made by a map stage ..): unwrap(next(<something containing a call of `marker`>))"""
+    best = None
+    for x in walk(elem):
+        if x[0] == 'unwrap' and is_call(x[1], 'Iterator::next') and any(y[0] == 'call' and y[1] == marker for y in walk(x)):
+            best = x      # (walk is pre-order: the last hit is the innermost)
+    return best
+
+
+def in_terms_of(sl, v, elem, symbol):
+    return subst(v, {'__repl__': [(canon(elem), symbol)]}, sl)
+
+
+def occurrences(v, symbol, field):
+    """(number of occurrences of symbol in v, number of them that are `symbol.field`)"""
+    n = k = 0
+    for x in walk(v):
+        if x == symbol:
+            n += 1
+        elif x[0] == 'field' and x[1] == symbol and x[2] == field:
+            k += 1
+    return n, k
+
+
+MAP_READS = ('::get', '::contains_key', '::iter', '::values', '::keys', '::len', '::is_empty', '::into_iter', '::range', '::first_key_value', '::last_key_value', '::get_key_value')
+
+
+def map_mutations(prog, sl, fn, is_map, allowed):
+    """calls in fn and its closures that receive the map mutably and are not the recognised inserts"""
+    out = []
+    for g in scope_fns(prog, fn):
+        for c in g.calls:
+            if c.indirect or not c.args or any(c is a for a in allowed) or is_transparent(c):
+                continue
+            for a in c.args:
+                pl = op_place(a)
+                if not pl or not g.local_ty(pl[0]).startswith('&mut std::collections::BTreeMap'):
+                    continue
+                if is_map(peel(sl.operand(g, a))) and not (c.name or '').endswith(MAP_READS):
+                    out.append(c)
+    return out
+
+
+_SUBTYPE_SLICERS = {}
+
+
+def subtype_slicer(sl):
+    """a Slicer for which `x as T (Subtype)` casts are transparent.  rustc inserts such a cast where a closure that captures a
+    `&mut` borrow is handed to a generic adapter (`iter.try_for_each(|n| { map.insert(..) })`); the library's slicer keeps it
+    as ('cast', closure, ty), which hides the closure from the effect expansion.  (Wanted in lib/value.py: treat
+    'Subtype' like 'Unsize' in Slicer._rvalue.)"""
+    from .lib.value import Slicer
+    key = id(sl)
+    if key not in _SUBTYPE_SLICERS:
+        class _S(Slicer):
+            def _rvalue(self, fn, rv, seen, d, at):
+                if rv['r'] == 'cast' and 'Subtype' in str(rv.get('kind')):
+                    return self.operand(fn, rv['o'], seen, d)
+                return Slicer._rvalue(self, fn, rv, seen, d, at)
+        _SUBTYPE_SLICERS[key] = (sl, _S(sl.prog, sl.max_depth))
+    return _SUBTYPE_SLICERS[key][1]
